@@ -13,8 +13,9 @@ from .symex import Interp, Oblig
 from .values import Unsupported, z
 
 VERIF = os.path.dirname(os.path.dirname(os.path.abspath(__file__)))
-REPLAY_DIR = os.path.join(VERIF, "replays")
-EVIDENCE_DIR = os.path.join(VERIF, "evidence")
+_OUT = os.path.join(os.environ["CHMPY_VERIF_REPO"], ".verif_out") if os.environ.get("CHMPY_VERIF_REPO") else VERIF   # scratch runs never touch /verif
+REPLAY_DIR = os.path.join(_OUT, "replays")
+EVIDENCE_DIR = os.path.join(_OUT, "evidence")
 KNOWN_FILE = os.path.join(VERIF, "known_findings.json")
 
 
